@@ -182,6 +182,19 @@ func gaugeMap(n int) *gostatsd.MetricMap {
 	return mm
 }
 
+// bigGaugeMap renders to well over 1000 UDP datagrams of the statsd relay (more than the relay's channel of
+// packet buffers holds): n gauges with 120-byte names
+func bigGaugeMap(n int) *gostatsd.MetricMap {
+	mm := gostatsd.NewMetricMap(false)
+	pad := strings.Repeat("x", 110)
+	for i := 0; i < n; i++ {
+		mm.Gauges[fmt.Sprintf("m%06d.%s", i, pad)] = map[string]gostatsd.Gauge{
+			"": gostatsd.NewGauge(gostatsd.Nanotime(time.Now().UnixNano()), float64(i)+0.5, "h", nil),
+		}
+	}
+	return mm
+}
+
 type beCase struct {
 	backend, flavor, retry, cancel string
 	reps                           int
@@ -465,7 +478,7 @@ func runSock(its [][]string) string {
 			time.Sleep(10 * time.Millisecond)
 		}
 	}
-	if scenario == "up" || scenario == "precancel" {
+	if scenario == "up" || scenario == "precancel" || scenario == "big" {
 		listen()
 	}
 	defer func() {
@@ -505,7 +518,12 @@ func runSock(its [][]string) string {
 		cancel()
 	}
 	rec := newRecorder()
-	backend.SendMetricsAsync(ctx, gaugeMap(3), rec.cb)
+	if scenario == "big" {
+		// one flush of "many" packets: 16000 gauges of ~135 bytes = about 1500 datagrams of 1472 bytes
+		backend.SendMetricsAsync(ctx, bigGaugeMap(16000), rec.cb)
+	} else {
+		backend.SendMetricsAsync(ctx, gaugeMap(3), rec.cb)
+	}
 	switch scenario {
 	case "downup":
 		time.Sleep(300 * time.Millisecond)
